@@ -1,6 +1,7 @@
 package checks
 
 import (
+	"os"
 	"fmt"
 	metav1 "k8s.io/apimachinery/pkg/apis/meta/v1"
 	"strings"
@@ -63,7 +64,7 @@ func (o *lcObserver) after(c *world.Call) {
 		if o.creates[c.Name] > 1 && !o.restarted {
 			o.viol = append(o.viol, c01Violation{"second successful provider Create for the same NodeClaim", fmt.Sprintf("NodeClaim %s: %d successful Create calls without a controller restart", c.Name, o.creates[c.Name])})
 		}
-	case (c.Verb == "status-patch" || c.Verb == "status-update" || c.Verb == "patch" || c.Verb == "update") && c.Kind == "NodeClaim" && c.Err == "":
+	case (c.Verb == "status-patch" || c.Verb == "status-update" || c.Verb == "patch" || c.Verb == "update") && c.Kind == "NodeClaim" && (c.Err == "" || c.AppliedButFailed()):
 		cur := w.GetNodeClaim(c.Name)
 		if cur == nil {
 			return
@@ -217,6 +218,8 @@ func c14Run(sc lcScenario, run *explore.Run, rounds int, interleave bool) (*lcOb
 	}
 	w.Client.Log = nil
 	obs := &lcObserver{w: w, creates: map[string]int{}, prev: map[string]bool{}}
+	// "even when status writes fail": a write may also be committed by the server and reported as failed (500-applied)
+	w.AmbiguousWrites = os.Getenv("VERIF_NO_AMBIG") == ""
 	taken := w.AttachFaults(run, world.WritesAndProvider)
 	var history []string
 	w.Client.After = obs.after
@@ -421,7 +424,7 @@ func init() {
 			"each round = one environment event (node appears with/without the unregistered taint, Ready, startup taints removed, extended resource reported, node deleted, the NodeClaim object removed from the API while the controller still holds a cached copy, clock +5m/+15m, controller restart, none) then one Reconcile handed any NodeClaim version not older than the last one given (stale read); "+
 			"every API WRITE and provider call (reads never fail, as the property quantifies) may fail (500 / 409 on optimistic lock / provider error / InsufficientCapacity / NodeClassNotReady). All histories with <=%d deviations from the happy path (non-default event, stale version, fault) are explored; a second pass explores every history with ONE kubelet event (node appears / Ready / taints removed / resource reported) happening in the MIDDLE of a reconcile, before any one of its calls. "+
 			"Oracle at the instant of each provider Create and each NodeClaim write. non-trivial = distinct (scenario, history)", len(lcScenarios), rounds, bound)
-		r.Assumptions = []string{"at-most-once Create is only required while the controller keeps running (runs with a restart skip that clause)", "the launch cache's one-hour real-time TTL is never reached"}
+		r.Assumptions = []string{"at-most-once Create is only required while the controller keeps running (runs with a restart skip that clause)", "the launch cache's one-hour real-time TTL is never reached", "a failed API write is either rejected (API unchanged) or committed and reported as a 500 (500-applied); the observer treats the latter as applied"}
 		// passes outermost, cheapest first: every scenario is covered at the lower bound before the deeper pass starts, so a
 		// deadline cuts the deepest pass only (the evidence says which pass completed)
 		for pi, pass := range passes {
